@@ -275,6 +275,14 @@ func stdB64(b []byte) string { return base64.StdEncoding.EncodeToString(b) }
 // buildRegistration constructs the response; deviations named in s.Dev alter exactly what their name says while
 // everything else (including signatures, re-made by the attacker's own attestation key) stays consistent.
 func buildRegistration(r *RNG, s *RegSpec) *RegBuilt {
+	aaguidExtLen := -1
+	if s.d("x5c.aaguidShortZeroPadded") {
+		// the extension carries only a prefix of the AAGUID (possibly nothing); the authenticator data carries that prefix padded with zeros
+		aaguidExtLen = variant(r, s.Var, []int{0, 1, 8, 15})
+		ag := make([]byte, 16)
+		copy(ag, s.AAGUID[:aaguidExtLen])
+		s.AAGUID = ag
+	}
 	cred := s.Cred
 	if cred == nil {
 		switch {
@@ -400,6 +408,9 @@ func buildRegistration(r *RNG, s *RegSpec) *RegBuilt {
 				}
 			}
 			cs.Extensions = append(cs.Extensions, aaguidExtension(ag, s.d("x5c.aaguidCritical")))
+		}
+		if aaguidExtLen >= 0 {
+			cs.Extensions = []pkix.Extension{{Id: oidAAGUIDExt, Value: append([]byte{0x04, byte(aaguidExtLen)}, s.AAGUID[:aaguidExtLen]...)}}
 		}
 		if s.d("x5c.aaguidMalformed") {
 			cs.Extensions = []pkix.Extension{{Id: oidAAGUIDExt, Value: pick(r, [][]byte{{0x04, 0x02, 1, 2}, {0x05, 0x00}, append([]byte{0x04, 0x11}, make([]byte, 17)...), {}})}}
@@ -610,6 +621,10 @@ func buildRegistration(r *RNG, s *RegSpec) *RegBuilt {
 			name = tpm2.Name{}
 		}
 		extra := digestFor(algHash(s.AttAlg), signed)
+		if s.d("tpm.extraDataShort") {
+			// a proper prefix of the right digest (possibly empty): still not the digest
+			extra = extra[:variant(r, s.Var, []int{0, 1, 2, len(extra) - 1, len(extra) / 2})]
+		}
 		if s.d("tpm.extraDataOther") {
 			extra = digestFor(algHash(s.AttAlg), append([]byte{1}, signed...))
 		}
